@@ -13,6 +13,7 @@ from ..common import Ctx
 THEOREMS = [
     "C19_no_invented", "C19_views_total", "C19_log_is_map_values", "C19_keys_unique",
     "C19_fresh_read_through_partial", "C19_announcement_pushes_down_partial",
+    "C19_cutoff_is_last_slot", "C19_view_within_log", "C19_announcement_at_full_depth",
     "C19_no_duplicates_refuted", "C19_pushdown_refuted", "C19_read_through_refuted", "C19_nonvacuous",
 ]
 
@@ -231,6 +232,101 @@ def run(ctx: Ctx) -> None:
     # ------------------------------------------------------------ O: search over controller-consistent histories
     search(ctx, fl, maxn=7 if thorough else 5, maxdepth=11 if thorough else 8)
 
+    # ------------------------------------------------------------ D: a simulated controller log at FULL depth
+    deep_log(ctx, entry_msg, null_msg, rounds=24 if thorough else 6)
+
+
+DEPTH = 64   # the property: "log up to 64 deep" -- the controller's slots are 00..3F, whatever the library's constants say
+
+
+def deep_log(ctx: Ctx, entry_msg, null_msg, rounds: int) -> None:
+    """Histories on the real FaultLog (real 0418 messages) against an independently simulated 64-deep controller log."""
+    from ramses_rf.system.faultlog import FaultLog  # noqa: PLC0415
+
+    rng = ctx.rng
+
+    def view_of(f):
+        return {k: unts(v) for k, v in f._map.items()}
+
+    def new_entry(log, nxt):
+        log.insert(0, nxt)
+        del log[DEPTH:]           # the oldest entry falls off the end of the controller's log
+
+    def read_through(f, log, hist):
+        for i in range(min(len(log), DEPTH)):
+            f.handle_msg(entry_msg("RP", i, log[i]))
+        if len(log) < DEPTH:
+            f._process_msg(null_msg(len(log)))
+        hist.append(("read-through", len(log)))
+
+    def check_equal(f, log, hist, sig, what):
+        v = view_of(f)
+        exp = dict(enumerate(log))
+        if v != exp:
+            diff = {k: (v.get(k), exp.get(k)) for k in sorted(set(v) | set(exp)) if v.get(k) != exp.get(k)}
+            ctx.violation(sig, what, {"history": list(hist), "log_depth": len(log), "slots(view,controller)": {f"{k:02X}": d for k, d in list(diff.items())[:6]}}, "history")
+
+    def check_bound(f, hist):
+        beyond = [k for k in f._map if k >= DEPTH]
+        if beyond:
+            ctx.violation("deep-log:index-beyond-the-log", "the view holds an entry at a log index the 64-deep controller log does not have",
+                          {"history": list(hist), "indexes": beyond}, "history")
+        try:
+            _ = (f.faultlog, f.latest_event, f.latest_fault, f.active_faults)
+        except Exception as err:  # noqa: BLE001
+            ctx.violation("view-raises", "reading the fault-log view raised " + type(err).__name__, {"history": list(hist), "error": repr(err)}, "history")
+
+    # (D2) clean histories around the full depth: complete belief, every announcement delivered
+    for n0 in (DEPTH - 2, DEPTH - 1, DEPTH, DEPTH + 3):
+        f, log, hist, nxt = FaultLog(_Tcs()), [], [], 1
+        for _ in range(n0):
+            new_entry(log, nxt)
+            nxt += 1
+        hist.append(("controller-log-filled", min(n0, DEPTH)))
+        read_through(f, log, hist)
+        ctx.case(("deep-clean", n0, "read"), True, "deep-log:clean")
+        check_equal(f, log, hist, "deep-log:read-through-mismatch", "after a complete read-through of a full-depth log the view differs from the controller's log")
+        for j in range(3):
+            new_entry(log, nxt)
+            f.handle_msg(entry_msg(" I", 0, nxt))
+            hist.append(("new-entry", "announced"))
+            nxt += 1
+            ctx.case(("deep-clean", n0, "ann", j), True, "deep-log:clean")
+            check_bound(f, hist)
+            check_equal(f, log, hist, "deep-log:pushdown-at-full-depth", "with the whole log known, a delivered announcement does not leave the view equal to the controller's log (every known entry one down, the last one off the end)")
+        read_through(f, log, hist)
+        check_equal(f, log, hist, "deep-log:read-through-mismatch", "after a complete read-through of a full-depth log the view differs from the controller's log")
+    # (D1) arbitrary histories on a (nearly) full log: losses, single replies near the end -- no index beyond the log, views total
+    for r in range(rounds):
+        f, log, hist, nxt = FaultLog(_Tcs()), [], [], 1
+        for _ in range(rng.choice((DEPTH - 1, DEPTH, DEPTH, DEPTH + 5))):
+            new_entry(log, nxt)
+            nxt += 1
+        hist.append(("controller-log-filled", len(log)))
+        for _ in range(rng.randint(4, 16)):
+            op = rng.random()
+            if op < 0.4:
+                new_entry(log, nxt)
+                delivered = rng.random() < 0.7
+                if delivered:
+                    f.handle_msg(entry_msg(" I", 0, nxt))
+                hist.append(("new-entry", "announced" if delivered else "lost"))
+                nxt += 1
+            elif op < 0.9:
+                i = rng.choice((0, 0, 1, DEPTH - 1, DEPTH - 1, DEPTH - 2, rng.randrange(DEPTH)))
+                if i < len(log):
+                    f.handle_msg(entry_msg("RP", i, log[i]))
+                    hist.append(("RP", i, log[i]))
+                elif i > 0:
+                    f._process_msg(null_msg(i))
+                    hist.append(("RP", i, None))
+            else:
+                read_through(f, log, hist)
+            ctx.case(("deep-random", r, len(hist)), True, "deep-log:random")
+            check_bound(f, hist)
+            if not set(view_of(f).values()) <= set(range(1, nxt)):
+                ctx.violation("invented-entry", "the view shows an entry that was never reported", {"history": list(hist)}, "history")
+
 
 def search(ctx: Ctx, fl, maxn: int, maxdepth: int) -> None:
     MAX = fl._MAX_LOG_IDX
@@ -371,7 +467,7 @@ def search(ctx: Ctx, fl, maxn: int, maxdepth: int) -> None:
             m2 = ins(mt, 0, v)
             succ.append((("new-entry", "announced"), (n + 1, m2), lost))
             # push-down: every known entry moves down by one
-            exp = {0: v} | {k + 1: x for k, x in m.items() if k + 1 <= MAX}
+            exp = {0: v} | {k + 1: x for k, x in m.items() if k + 1 < DEPTH}
             if dict(m2) != exp:
                 cause = "slot0-unknown" if 0 not in m else ("belief-has-gaps" if sorted(m) != list(range(len(m))) else "other")
                 info.setdefault((n + 1, m2), (lost, s, ("new-entry", "announced")))
